@@ -17,6 +17,17 @@ Theorem roundtrip_model :
 Proof. exact roundtrip_model_lemma. Qed.
 Print Assumptions roundtrip_model.
 
+(* The stream may end right after the last token (no trailing separator: [rest = []], which is
+   what every roundtrip_X theorem states) or continue with anything else: the object is read back
+   and the remainder is left on the stream. *)
+Theorem roundtrip_model_any_suffix :
+  forall (token : Type) (show : Q -> token) (read : token -> option (Q * option token)) (dbl : Q -> Prop),
+  (forall d, dbl d -> read (show d) = Some (d, None)) ->
+  forall x dest rest, wf_model dbl x -> mS dest = mS x -> mA dest = mA x ->
+  read_model token read (write_model token show x ++ rest) dest = (x, ROk x rest).
+Proof. exact roundtrip_model_suffix_lemma. Qed.
+Print Assumptions roundtrip_model_any_suffix.
+
 Theorem roundtrip_experience :
   forall (token : Type) (show : Q -> token) (read : token -> option (Q * option token))
          (showN : N -> token) (readN : token -> option (N * option token)) (dbl : Q -> Prop) (u64 : N -> Prop),
